@@ -351,49 +351,48 @@ func concurrentExpiredReads(r *Run, tag string) {
 // re-created (a write acknowledges) while a sweep runs: whichever comes first, the acknowledged write is there afterwards
 // - sweep first: the write creates the session; write first: the sweep sees a fresh session and keeps it.
 func concurrentSweep(r *Run, tag string) {
-	rounds := 150
+	rounds := 120
 	if r.thorough() {
-		rounds = 3000
+		rounds = 2000
 	}
 	toks := tokPool()
+	const nOld = 192
 	for round := 0; round < rounds && r.unknownViolations() == 0; round++ {
 		var nowNs int64 = 1_700_000_000_000_000_000
-		var calls int64
 		clock := &oidc.Clock{NowFn: func() time.Time {
-			if atomic.AddInt64(&calls, 1)%2 == 0 {
-				time.Sleep(30 * time.Microsecond)
-			} else {
-				runtime.Gosched()
-			}
+			runtime.Gosched() // the clock is the store's only call-out: let the other goroutines in
 			return time.Unix(0, atomic.LoadInt64(&nowNs)).UTC()
 		}}
 		store := oidc.NewMemoryStore(clock, 0, 2*time.Second)
 		ctx := context.Background()
-		for k := 0; k < 4; k++ {
+		for k := 0; k < nOld; k++ {
 			must(store.SetTokenResponse(ctx, fmt.Sprint("old-", k), toks[0]))
 		}
 		atomic.AddInt64(&nowNs, int64(3*time.Second))
 		var wg sync.WaitGroup
 		start := make(chan struct{})
-		wg.Add(2)
+		wg.Add(1)
 		go func() { defer wg.Done(); <-start; _ = store.RemoveAllExpired(ctx) }()
-		go func() {
-			defer wg.Done()
-			<-start
-			if round%2 == 0 {
-				runtime.Gosched()
-			}
-			for k := 0; k < 4; k++ {
-				_ = store.SetTokenResponse(ctx, fmt.Sprint("old-", k), toks[3])
-			}
-		}()
+		for g := 0; g < 4; g++ {
+			wg.Add(1)
+			go func(g int) {
+				defer wg.Done()
+				<-start
+				for spin := 0; spin < (round%8)*200; spin++ {
+					_ = spin // stagger the writers against the sweep a little differently every round
+				}
+				for k := g; k < nOld; k += 4 {
+					_ = store.SetTokenResponse(ctx, fmt.Sprint("old-", k), toks[3])
+				}
+			}(g)
+		}
 		close(start)
 		wg.Wait()
-		for k := 0; k < 4; k++ {
+		for k := 0; k < nOld; k++ {
 			got, _ := store.GetTokenResponse(ctx, fmt.Sprint("old-", k))
 			if got == nil || got.IDToken != toks[3].IDToken {
 				r.Violate(tag+" a write that was acknowledged while RemoveAllExpired was running is gone afterwards: the sweep is not atomic with respect to the other operations of the in-memory store",
-					map[string]any{"session": fmt.Sprint("old-", k), "round": round, "steps": "4 sessions past the idle limit; RemoveAllExpired concurrently with SetTokenResponse on each of them; then GetTokenResponse"})
+					map[string]any{"session": fmt.Sprint("old-", k), "round": round, "steps": fmt.Sprint(nOld, " sessions past the idle limit; RemoveAllExpired concurrently with SetTokenResponse on each of them (4 writers); then GetTokenResponse")})
 				break
 			}
 		}
